@@ -1,0 +1,28 @@
+//go:build verif
+
+// Contracts for the verification machinery in /verif (govc). Comment-only.
+
+package utils
+
+// C17: dest is published by exactly one rename of a synced, closed temporary file; on any
+// error dest is not renamed onto and the temporary file is removed; nothing writes dest directly.
+
+//@ func CreateAtomic
+//@   modifies fsSynced, fsClosed, fsPublishes, fsPubSrc, fsPubDst, fsRemoves, fsRemoved
+//@   ghost var tf *renameio.PendingFile = nil
+//@   at after TempFile ghost tf = ret0
+//@   at call io.Copy assert tf != nil && typeIs(arg0, *renameio.PendingFile) && asType(arg0, *renameio.PendingFile) == tf
+//@   at call (*File).Chmod assert tf != nil && arg0 == tf.File
+//@   ensures r0 == nil && !isTemp(dest) ==> fsPublishes == old(fsPublishes) + 1 && fsPubDst == dest && isTemp(fsPubSrc)
+//@   ensures r0 != nil || isTemp(dest) ==> fsPublishes == old(fsPublishes)
+//@   ensures r0 != nil && tf != nil ==> fsRemoved == nameOf(tf.File) && isTemp(fsRemoved)
+
+//@ func CopyFileAtomic
+//@   modifies opts.Mode, fsSynced, fsClosed, fsPublishes, fsPubSrc, fsPubDst, fsRemoves, fsRemoved
+//@   ensures r0 == nil && !isTemp(dest) ==> fsPublishes == old(fsPublishes) + 1 && fsPubDst == dest && isTemp(fsPubSrc)
+//@   ensures r0 != nil || isTemp(dest) ==> fsPublishes == old(fsPublishes)
+
+//@ func ReplaceFileAtomic
+//@   modifies opts.Mode, fsSynced, fsClosed, fsPublishes, fsPubSrc, fsPubDst, fsRemoves, fsRemoved
+//@   ensures r0 == nil && !isTemp(dest) ==> fsPublishes == old(fsPublishes) + 1 && fsPubDst == dest && isTemp(fsPubSrc)
+//@   ensures r0 != nil || isTemp(dest) ==> fsPublishes == old(fsPublishes)
